@@ -595,6 +595,31 @@ def _check_config(n, degree, io, bias, X):
     return bad
 
 
+def _check_refit(n, kind, c1, c2, X):
+    """fit under configuration c1, set_params to c2, fit again on data of the same width: must equal PolynomialFeatures(c2)"""
+    import numpy
+    from mlinsights.mlmodel.extended_features import ExtendedFeatures
+    from sklearn.preprocessing import PolynomialFeatures
+    site = "ExtendedFeatures[%s]:refit-after-set_params" % kind
+    ref = numpy.asarray(PolynomialFeatures(degree=c2[0], interaction_only=c2[1], include_bias=c2[2]).fit_transform(X))
+    ext = ExtendedFeatures(kind=kind, poly_degree=c1[0], poly_interaction_only=c1[1], poly_include_bias=c1[2])
+    try:
+        ext.fit(X).transform(X)
+        ext.set_params(poly_degree=c2[0], poly_interaction_only=c2[1], poly_include_bias=c2[2])
+        out = numpy.asarray(ext.fit(X).transform(X))
+    except Exception as e:  # noqa: BLE001
+        return [(site + ":raises", "refit after set_params raises", "%s: %s" % (type(e).__name__, str(e)[:120]),
+                 "the features of the new configuration")]
+    bad = []
+    if ext.n_output_features_ != ref.shape[1]:
+        bad.append((site + ":n_output_features_", "n_output_features_ after a refit is not the number of columns",
+                    int(ext.n_output_features_), int(ref.shape[1])))
+    if out.shape != ref.shape or not numpy.array_equal(out, ref):
+        bad.append((site + ":matrix-differs", "transform after a refit differs from PolynomialFeatures",
+                    out.tolist(), ref.tolist()))
+    return bad
+
+
 def _matrix(rng, n, rows, kind):
     import numpy
     if kind == "int":
@@ -633,6 +658,22 @@ def search(ctx, hints):
             for key, what, obs, req in bad:
                 vs.append(Violation(key, what, {"n": n, "degree": degree, "interaction_only": io,
                                                 "include_bias": bias, "X": X.tolist(), "dtype": kind}, obs, req))
+    # histories: the SAME instance refitted after set_params (every configuration is reached through fit)
+    for t in range(ctx.pick(40, 400)):
+        n = rng.randint(1, 4)
+        c1 = (rng.randint(1, 4), rng.random() < 0.5, rng.random() < 0.5)
+        c2 = (rng.randint(1, 4), rng.random() < 0.5, rng.random() < 0.5)
+        if c2[0] == 0 and not c2[2]:
+            continue
+        kind = ("poly", "poly-slow")[t % 2]
+        X = _matrix(rng, n, rng.randint(1, 3), "int")
+        bad = _check_refit(n, kind, c1, c2, X)
+        evals += 1
+        nontriv.add(("refit", n, kind, c1, c2))
+        for key, what, obs, req in bad:
+            vs.append(Violation(key, what, {"n": n, "degree": c2[0], "interaction_only": c2[1], "include_bias": c2[2],
+                                            "X": X.tolist(), "dtype": "int", "refit_from": list(c1), "kind": kind},
+                                obs, req))
     best = {}
     for v in vs:
         size = (v.input["n"] + v.input["degree"], len(v.input["X"]))
@@ -648,7 +689,11 @@ def replay(ctx, item):
     inp = item["input"]
     X = numpy.array(inp["X"], dtype=numpy.int64 if inp.get("dtype") == "int" else float)
     X = X.reshape(len(inp["X"]), inp["n"])
-    bad = _check_config(inp["n"], inp["degree"], inp["interaction_only"], inp["include_bias"], X)
+    if "refit_from" in inp:
+        bad = _check_refit(inp["n"], inp["kind"], tuple(inp["refit_from"]),
+                           (inp["degree"], inp["interaction_only"], inp["include_bias"]), X)
+    else:
+        bad = _check_config(inp["n"], inp["degree"], inp["interaction_only"], inp["include_bias"], X)
     best = {}
     for key, what, obs, req in bad:
         best.setdefault(key, Violation(key, what, inp, obs, req))
